@@ -21,7 +21,7 @@ from symx.runner import Query
 PROPERTY = "C17"
 LEVEL = "other"
 EXPLANATION = __doc__
-FUNCTIONS = ["ramses_rf.system.schedule:full_sched_to_fragz", "ramses_rf.system.schedule:fragz_to_full_sched", "ramses_rf.system.schedule:_struct_pack", "ramses_rf.system.schedule:_struct_unpack",
+FUNCTIONS = ["ramses_tx.command:Command.set_schedule_fragment", "ramses_tx.parsers:parser_0404", "ramses_rf.system.schedule:full_sched_to_fragz", "ramses_rf.system.schedule:fragz_to_full_sched", "ramses_rf.system.schedule:_struct_pack", "ramses_rf.system.schedule:_struct_unpack",
              "ramses_rf.system.schedule:Schedule._update_payload_set", "ramses_rf.system.schedule:Schedule._proc_payload_set"]
 BOUNDS = {"quick": {"schedule": "7 days x 1 and x 2 switch points; the hour, 5-minute slot and setpoint/on-off of the switch points of two days at a time symbolic (4 day pairs), zone 00..0F / DHW", "reassembly": "4 fragments, 4 arrivals drawn from them in any order with repeats (every sequence), one symbolic day"},
           "thorough": {"schedule": "7 days x 1..3 switch points", "reassembly": "6 arrivals"}}
@@ -54,9 +54,20 @@ class _ZlibId:
             _ZlibId.produced.append([x for p in self.parts for x in list(p)])
             return b""
 
+    class _Forced:
+        """compressor whose output is a given blob (any bytes of a given length), whatever goes in"""
+
+        def compress(self, b):
+            return b""
+
+        def flush(self):
+            return _ZlibId.force_blob
+
+    force_blob = None
+
     @staticmethod
     def compressobj(*a, **k):
-        return _ZlibId._C()
+        return _ZlibId._Forced() if _ZlibId.force_blob is not None else _ZlibId._C()
 
     @staticmethod
     def decompress(b):
@@ -332,6 +343,43 @@ def h_fragcmd(ctx, flen):
     return "ok"
 
 
+def h_slicing(ctx, L):
+    """the fragmentation proper, for a compressed blob of L arbitrary bytes: fragments are non-empty, at most 41 bytes,
+    ceil(L/41) of them, concatenate to the blob - and the write command of every fragment (numbered i of n as
+    Schedule.set_schedule numbers them) is one the decoder accepts and reads back"""
+    import symx
+    from ramses_rf.system import schedule as S
+    from ramses_tx.command import Command
+    from ramses_tx.message import Message
+    from symx.strings import SymBytes
+
+    blob = SymBytes([symx.sym_int(ctx, f"b{i}", 0, 255) for i in range(L)])
+    _ZlibId.force_blob = blob
+    try:
+        sched = _mk_schedule(Cex({}), 1, False, ())
+        frags = S.full_sched_to_fragz(sched)
+    finally:
+        _ZlibId.force_blob = None
+    n = len(frags)
+    ctx.check(n == -(-L // 41), "C17:fragment-count-is-ceil-of-blob-length-over-41", info=f"{n} fragments for {L} bytes")
+    ctx.check(all(2 <= len(f) <= 82 and len(f) % 2 == 0 for f in frags), "C17:every-fragment-is-1-to-41-bytes", info=str([len(f) // 2 for f in frags]))
+    whole = frags[0]
+    for f in frags[1:]:
+        whole = whole + f
+    ctx.check(D_eq(whole, blob.hex().upper()), "C17:fragments-concatenate-to-the-blob")
+    for i, f in enumerate(frags):
+        if i not in (0, n - 1):
+            continue
+        try:
+            cmd = Command.set_schedule_fragment("01:145038", "01", i + 1, n, f)
+            msg = Message._from_cmd(cmd)
+        except Exception as e:  # noqa: BLE001
+            ctx.check(False, "C17:write-command-of-a-fragment-is-accepted", info=f"fragment {i + 1}/{n} of {len(f) // 2} bytes: {type(e).__name__}")
+            return "rejected"
+        ctx.check(D_eq(msg.payload.get("fragment"), f) and msg.payload.get("total_frags") == n and msg.payload.get("frag_number") == i + 1, "C17:write-command-of-a-fragment-decodes-back", info=f"{i + 1}/{n}")
+    return f"{n} fragments"
+
+
 def D_eq(a, b):
     from checks.decode import eq_struct
 
@@ -341,7 +389,9 @@ def D_eq(a, b):
 def queries(tier, seed):
     thorough = tier == "thorough"
     qs = []
-    for flen in ((1, 2, 3, 20, 40, 41) if thorough else (1, 2, 41)):
+    for L in (range(1, 206) if thorough else (1, 2, 40, 41, 42, 81, 82, 83, 123, 124)):
+        qs.append(Query(f"slicing[{L}]", lambda c, L=L: h_slicing(c, L), {"h": "slicing", "L": L}, group="slicing", max_secs=200, weight=2))
+    for flen in range(1, 42):
         qs.append(Query(f"fragcmd[{flen}]", lambda c, flen=flen: h_fragcmd(c, flen), {"h": "fragcmd", "flen": flen}, group="fragcmd", max_secs=200, weight=3))
     qs.append(Query("two-versions[k=4]", lambda c: h_two_versions(c, 4), {"h": "two", "k": 4}, group="reassemble", max_secs=600, max_paths=100_000, weight=15, split_depth=3))
     pairs = [(0, 1), (2, 3), (4, 5), (6, 0)] if not thorough else [(0, 1), (1, 2), (2, 3), (3, 4), (4, 5), (5, 6), (6, 0), (0, 3, 6)]
@@ -395,6 +445,46 @@ def replay(item):
         except Exception as e:  # noqa: BLE001
             bad.append(f"reply rejected: {type(e).__name__}: {e}"[:160])
         return {"reproduced": bool(bad), "observed": f"fragment of {flen} byte(s) {frag}: " + "; ".join(bad), "signature": f"fragcmd: {label.split(':', 1)[1]}"}
+    if prm["h"] == "slicing":
+        import types as _t
+        import zlib as _zl
+
+        from ramses_tx.command import Command
+        from ramses_tx.message import Message
+
+        L = prm["L"]
+        blob = bytes(int(cex.get(f"b{i}", 0)) for i in range(L))
+
+        class _F:  # the compressor's output is the counterexample's blob
+            def compress(self, b):
+                return b""
+
+            def flush(self):
+                return blob
+
+        real = S.zlib
+        S.zlib = _t.SimpleNamespace(compressobj=lambda *a, **k: _F(), decompress=_zl.decompress, error=_zl.error)
+        try:
+            frags = S.full_sched_to_fragz(_mk_schedule(Cex({}), 1, False, ()))
+        finally:
+            S.zlib = real
+        n, bad = len(frags), []
+        if n != -(-L // 41):
+            bad.append(f"{n} fragments for a blob of {L} bytes")
+        if not all(2 <= len(f) <= 82 and len(f) % 2 == 0 for f in frags):
+            bad.append(f"fragment sizes {[len(f) // 2 for f in frags]}")
+        if "".join(frags) != blob.hex().upper():
+            bad.append("fragments do not concatenate to the blob")
+        for i, f in enumerate(frags):
+            if i not in (0, n - 1):
+                continue
+            try:
+                m = Message._from_cmd(Command.set_schedule_fragment("01:145038", "01", i + 1, n, f))
+                if m.payload.get("fragment") != f or m.payload.get("total_frags") != n or m.payload.get("frag_number") != i + 1:
+                    bad.append(f"write command of fragment {i + 1}/{n} decodes to {m.payload}")
+            except Exception as e:  # noqa: BLE001
+                bad.append(f"write command of fragment {i + 1}/{n} ({len(f) // 2} bytes) rejected: {type(e).__name__}: {e}"[:200])
+        return {"reproduced": bool(bad), "observed": f"compressed blob of {L} bytes: " + "; ".join(bad), "signature": f"slicing: {label.split(':', 1)[1]}"}
     if prm["h"] == "two":
         A = _mk_schedule(Cex(cex), 1, False, ())
         B = _mk_schedule(Cex(cex), 1, False, (2,))
